@@ -95,6 +95,40 @@ pub fn gen(tier: &str, seed: u64, emit: &mut dyn FnMut(String)) {
                 emit(dmx_case(0, "", &[m.bytes()]));
             }
         }
+        // (g) a next-version table with a verifying code word INSIDE it: section_length counts k trailing bytes (0xff / 0x00 /
+        // random stuffing, or a second copy of the CRC) behind a CRC_32 that is right for the bytes before them; or the
+        // checksum is right for the section without its first byte(s).  The section as delimited by section_length does not verify.
+        for (which, sect) in [(0u8, &pat1), (1u8, &pmt1)] {
+            let n = sect.len();
+            for k in [1usize, 2, 3, 4, 5, 8, 16] { for fillk in 0..4u8 {
+                if n + k > 1024 { continue; }
+                let mut pre = sect[..n - 4].to_vec();
+                let len = n - 3 + k; pre[1] = (pre[1] & 0xf0) | (len >> 8) as u8; pre[2] = len as u8;
+                let c = crc32_mpeg(&pre).to_be_bytes();
+                let mut bad = pre.clone(); bad.extend_from_slice(&c);
+                for j in 0..k { bad.push(match fillk { 0 => 0xff, 1 => 0x00, 2 => rng.byte(), _ => c[j % 4] }); }
+                if crc32_mpeg(&bad) == 0 { continue; }
+                let mut m = Mux::new();
+                m.psi(0, &pat0, 0, 0, &mut rng);
+                m.psi(pmt_pid, &pmt0, 0, if multi { 1 } else { 0 }, &mut rng);
+                let pid = if which == 0 { 0 } else { pmt_pid };
+                m.psi(pid, &bad, 0, if multi { rng.below(2) } else { 0 }, &mut rng);
+                for p in [pmt_pid, new_pid, pids[2], pids[3], *pids.last().unwrap()] { let pl = rng.bytes(184); let cc = rng.below(16) as u8; m.pkts.push(ts_packet(p, false, cc, false, 0, None, &pl)); }
+                emit(dmx_case(0, "", &[m.bytes()]));
+            } }
+            for skip in [1usize, 3, 8] {
+                let mut bad = sect.clone();
+                let c = crc32_mpeg(&bad[skip..n - 4]).to_be_bytes(); bad[n - 4..].copy_from_slice(&c);
+                if crc32_mpeg(&bad) == 0 { continue; }
+                let mut m = Mux::new();
+                m.psi(0, &pat0, 0, 0, &mut rng);
+                m.psi(pmt_pid, &pmt0, 0, if multi { 1 } else { 0 }, &mut rng);
+                let pid = if which == 0 { 0 } else { pmt_pid };
+                m.psi(pid, &bad, 0, if multi { rng.below(2) } else { 0 }, &mut rng);
+                for p in [pmt_pid, new_pid, pids[2], pids[3], *pids.last().unwrap()] { let pl = rng.bytes(184); let cc = rng.below(16) as u8; m.pkts.push(ts_packet(p, false, cc, false, 0, None, &pl)); }
+                emit(dmx_case(0, "", &[m.bytes()]));
+            }
+        }
         // (d) a next-version table whose CRC_32 field holds a value that "means something": zero, all ones, the first or last four
         // bytes of the section, the CRC of the section without / with its own first byte — none of them is its checksum
         for (which, sect) in [(0u8, &pat1), (1u8, &pmt1)] {
